@@ -110,7 +110,18 @@ func Assume(c bool) {
 	}
 }
 
+var nAsserts int
+
+// EndLine summarises a completed native run for the translator validation: the engine's path must
+// have made the same number of assertions, nondeterministic reads and choices.
+func EndLine() string {
+	mu.Lock()
+	defer mu.Unlock()
+	return fmt.Sprintf("ZV: END asserts=%d nondet=%d choices=%d", nAsserts, ni, ci)
+}
+
 func Assert(c bool, id string) {
+	nAsserts++
 	if !c {
 		if schedOn && schedTarget != "" && id != schedTarget {
 			otherFails[id] = true
@@ -123,6 +134,7 @@ func Assert(c bool, id string) {
 
 // AssertUnless asserts c; known marks the region of a recorded finding.
 func AssertUnless(known, c bool, id string) {
+	nAsserts++
 	if !c {
 		if schedOn && schedTarget != "" && id != schedTarget {
 			otherFails[id] = true
@@ -740,11 +752,12 @@ func Par(fs ...func()) {
 // RunSchedules runs the harness once per schedule (depth-first over the scheduler's decisions)
 // in ZV_SCHED=dfs mode, ZV_LOOP times in free-running mode, once otherwise.
 func RunSchedules(harness func()) {
-	schedOn = os.Getenv("ZV_SCHED") == "dfs"
+	schedOn = os.Getenv("ZV_SCHED") == "dfs" || os.Getenv("ZV_SCHED") == "guided"
 	schedTarget = os.Getenv("ZV_TARGET")
+	once := os.Getenv("ZV_SCHED") == "guided" // one run following the engine's schedule
 	resetInputs := func() {
 		mu.Lock()
-		ni, ci, stamp = 0, 0, 0
+		ni, ci, stamp, nAsserts = 0, 0, 0, 0
 		mu.Unlock()
 		for _, h := range ResetHooks {
 			h()
@@ -782,7 +795,7 @@ func RunSchedules(harness func()) {
 		for i >= 0 && dfsTrace[i][0]+1 >= dfsTrace[i][1] {
 			i--
 		}
-		if i < 0 || runs > 200000 {
+		if i < 0 || runs > 200000 || once {
 			break
 		}
 		dfsPrefix = dfsPrefix[:0]
